@@ -1,10 +1,11 @@
 #!/bin/sh
-# builds build/driver from coq/extracted/model.ml + ocaml/*.ml
+# builds build/driver from coq/extracted/model.ml + the engines registered in ocaml/driver.ml
 set -e
 cd "$(dirname "$0")"
 B=../build/ocaml
 mkdir -p $B
+rm -f $B/*.ml $B/*.mli
 cp ../coq/extracted/model.ml ../coq/extracted/model.mli *.ml $B/
 cd $B
-ENG=$(ls e_*.ml | sort | tr '\n' ' ')
+ENG=$(grep -o 'E_[a-z0-9_]*\.' driver.ml | sort -u | tr 'A-Z' 'a-z' | sed 's/\.$/.ml/' | tr '\n' ' ')
 ocamlfind ocamlopt -w -a -package str -linkpkg model.mli model.ml util.ml autdump.ml $ENG driver.ml -o ../driver
